@@ -255,4 +255,6 @@ def run(ctx):
     ctx.guard(r2, ctx, prog)
     ctx.guard(r3, ctx, prog)
     ctx.guard(r4, ctx, prog)
+    from rules import C11_replay
+    ctx.guard(C11_replay.r5, ctx, prog)
     return prog
